@@ -195,4 +195,9 @@ def run_check(prop, tier, level, main, checker_cmd):
         where = "%s:%d" % (os.path.basename(tb[-1].filename), tb[-1].lineno) if tb else "?"
         rep.broken("internal error of the checker (%s: %s at %s)" % (type(e).__name__, e, where))
     code = rep.finish()
+    if os.environ.get("VERIF_CACHE_EPHEMERAL") and os.environ.get("FCPPT_OVERLAY"):
+        # self-test runs present each mutant / refactoring as its own overlay: its cache entry is of no further use
+        import shutil
+        for d_ in list(P.USED_CACHE_DIRS):
+            shutil.rmtree(d_, ignore_errors=True)
     sys.exit(code)
